@@ -255,7 +255,7 @@ def run_property(prop, tier, seed):
         import fuzzdrv
         return fuzzdrv.run_property(sys.modules[__name__], prop, tier, seed, meta)
     exe = build([prop])[prop]
-    rundir = os.path.join(BUILD, "run", prop + "-" + tier); shutil.rmtree(rundir, ignore_errors=True); os.makedirs(rundir)
+    rundir = os.path.join(BUILD, "run", "%s-%s-%d" % (prop, tier, os.getpid())); shutil.rmtree(rundir, ignore_errors=True); os.makedirs(rundir)
     known_file = write_known_file(prop, rundir)
     known = known_for(prop)
     subs = [json.loads(l) for l in subprocess.run([exe, "--list"], capture_output=True, text=True, env=env_for_run()).stdout.splitlines() if l.startswith("{")]
@@ -392,6 +392,7 @@ def run_property(prop, tier, seed):
         print("  signature=%s :: %s" % (v["signature"], (v.get("message") or "").strip().splitlines()[0][:300] if (v.get("message") or "").strip() else ""))
         print("VIOLATION property=%s replay=%s" % (prop, p))
     sys.stdout.flush()
+    shutil.rmtree(rundir, ignore_errors=True)
     return 1 if violations else 0
 
 def write_evidence(prop, ev):
